@@ -106,6 +106,7 @@ def run(tier="quick", seed=0, arg=None):
         names = [choice]
         if "X_Y" in choice:
             pts = [(x, y) for x in xs for y in xs] if tier != "quick" else [(x, y) for x in xs[::3] for y in xs[::4]]
+            pts += [(100, 0), (2, 100), (100, 100), (1234, 5), (7, 12345)]        # "any X_Y": more than two digits in either part
             names = [choice.replace("X_Y", f"{x}_{y}") for x, y in pts]
         for nm in names:
             evals += 1
